@@ -233,7 +233,7 @@ def tasks(tier, seed):
 def run_task(task):
     S = scenarios(task['tier'], task['seed'])
     i, k = task['slice']
-    res = run_scenarios(S[i::k], unitkit.units_patches, timeout_ms=20000, seed=task['seed'])
+    res = run_scenarios(S[i::k], unitkit.units_patches, timeout_ms=20000, seed=task['seed'], div_zero='fork')
     if i == 0:
         # fail closed when the library's conversion table has rows the oracle table does not know
         from scinumtools.units.unit_types import LogarithmicUnitType
